@@ -33,6 +33,11 @@ struct Expect {
     free: bool,
 }
 
+thread_local! {
+    /// the store under examination has temporary ids switched off
+    static NO_TEMP_IDS: std::cell::Cell<bool> = std::cell::Cell::new(false);
+}
+
 fn expect(live_by_id: Option<usize>, live_handle: impl Fn(usize) -> bool, letter: &str, s: &str) -> Expect {
     if let Some(h) = live_by_id {
         // a public id that looks like a temporary id is never generated, so an id match is unambiguous
@@ -40,7 +45,7 @@ fn expect(live_by_id: Option<usize>, live_handle: impl Fn(usize) -> bool, letter
     }
     match parse_temp(s) {
         Some((l, Some(n), true)) => {
-            if l == letter && live_handle(n) {
+            if l == letter && live_handle(n) && !NO_TEMP_IDS.with(|f| f.get()) {
                 Expect { handle: Some(n), free: false }
             } else {
                 Expect { handle: None, free: false }
@@ -151,6 +156,7 @@ pub fn probes(rng: &mut Rng, m: &Model) -> Vec<String> {
 
 pub fn probe_all(h: &History, rep: &mut Report, rng: &mut Rng) {
     let m = &h.model;
+    NO_TEMP_IDS.with(|f| f.set(m.no_temp_ids));
     let store = &h.store;
     for s in probes(rng, m) {
         let s = s.as_str();
@@ -394,8 +400,12 @@ pub fn run(p: &Params, rep: &mut Report) {
         rep.current_case = p.case_coord(k);
         rep.cases += 1;
         let mut rng = Rng::new(p.seed, "c03", k);
-        let mut h = History::new(100, rng.chance(1, 2));
+        // one history in six runs on a store with temporary ids switched off (the configuration given at construction, or applied
+        // to the still empty store afterwards): `!A0` is then just a string that nothing carries
+        let no_temp = rng.chance(1, 6);
+        let mut h = if no_temp { History::new_no_temp_ids(100, rng.chance(1, 2), rng.chance(1, 2)) } else { History::new(100, rng.chance(1, 2)) };
         let mut cfg = GenCfg::default();
+        cfg.by_temp_id = !no_temp;
         cfg.hostile_ids = rng.chance(1, 2);
         cfg.max_anns = 10;
         cfg.protect = false;
